@@ -211,7 +211,7 @@ pub fn mode_faultenum(args: &Args) {
     cfg.dfaults = false;
     cfg.len = args.num("len", 40) as usize;
     let mut agg = Agg::new();
-    agg.own = own_props(&prop);
+    agg.own = crate::own_of(args, &prop);
     let mut idx = shard;
     let mut positions = 0u64;
     let mut bases = 0u64;
